@@ -19,7 +19,7 @@ int   __real_pthread_mutex_trylock(pthread_mutex_t*);
 int   __real_pthread_mutex_unlock(pthread_mutex_t*);
 #define __real_pthread_getspecific pthread_getspecific   /* redirected by macro in /repo objects, not by --wrap */
 
-#define MAXT 24
+#define MAXT 160
 #define TSTACK_BASE 0x1F1000000000ULL
 #define TSTACK_SIZE (32UL << 20)
 #define TSTACK_STRIDE (1ULL << 32)
@@ -35,6 +35,7 @@ struct SimThread {
   void*     wait_mutex;
   int       wait_tid;
   int       joined;
+  void*     stack;
 };
 
 static struct SimThread T[MAXT];
@@ -44,6 +45,7 @@ static int  g_alive = 1;         /* threads not DONE */
 static int  g_cur;               /* baton holder */
 static long g_yields, g_switches;
 long sched_lib_switches;
+long sched_hook_switches[16];     /* switches taken at the guarded yield hooks inside /repo, by site */
 static uint32_t g_ord;           /* ordinal of yields taken while >1 thread alive */
 static const Plan* g_plan;
 static int  g_mode;              /* 0 plan pre-emptions only, 2 chaos */
@@ -78,6 +80,12 @@ void sched_stats_flush(void) {
   stat_add("sched.switches", g_switches);
   stat_add("sched.lib_switches", sched_lib_switches);
   stat_add("sched.threads", g_nthreads);
+  stat_add("sched.sw_in_cache_fill", sched_hook_switches[1]);
+  stat_add("sched.sw_in_class_memo", sched_hook_switches[2]);
+  stat_add("sched.sw_in_lazy_header", sched_hook_switches[3]);
+  stat_add("sched.sw_in_gc_set", sched_hook_switches[5]);
+  stat_add("sched.sw_in_sweep", sched_hook_switches[6]);
+  stat_add("sched.sw_before_longjmp", sched_hook_switches[7] + sched_hook_switches[8]);
 }
 
 static int pick_next(int from, int want) {
@@ -95,6 +103,7 @@ static void switch_to(int next, int site) {
   if (next == me) return;
   g_switches++;
   if (site < 100 || site == SITE_MALLOC || site == SITE_FREE || site == SITE_GETSPECIFIC) sched_lib_switches++;
+  if (site >= 0 && site < 16) sched_hook_switches[site]++;
   g_cur = next;
   ev("sw %d>%d @%d", me, next, site);
   sem_post(&T[next].sem);
@@ -125,6 +134,17 @@ void sim_yield(int site) {
   int next = pick_next(me, want);
   if (next < 0 || next == me) return;
   switch_to(next, site);
+}
+
+/* a spinning thread gives way: always hands the baton to another runnable thread if there is one */
+void sim_pause(void) {
+  if (!g_active || g_alive < 2 || !tls_registered) return;
+  g_yields++; g_ord++;
+  int me = tls_self;
+  for (int k = 1; k < g_nthreads; k++) {
+    int t = (me + k) % g_nthreads;
+    if (T[t].state == T_RUNNABLE) { switch_to(t, SITE_EXPLICIT); return; }
+  }
 }
 
 static void hook_yield(int site) { sim_yield(site); }
@@ -176,7 +196,7 @@ int __wrap_pthread_create(pthread_t* th, const pthread_attr_t* attr, void*(*fn)(
   pthread_attr_t at;
   pthread_attr_init(&at);
   pthread_attr_setstack(&at, stk, TSTACK_SIZE);
-  T[id].fn = fn; T[id].arg = arg; T[id].state = T_RUNNABLE; T[id].joined = 0;
+  T[id].fn = fn; T[id].arg = arg; T[id].state = T_RUNNABLE; T[id].joined = 0; T[id].stack = stk;
   sem_init(&T[id].sem, 0, 0);
   g_nthreads++; g_alive++;
   int rc = __real_pthread_create(&T[id].th, &at, trampoline, (void*)(intptr_t)id);
@@ -203,7 +223,9 @@ int __wrap_pthread_join(pthread_t th, void** ret) {
   ev("join t%d<-t%d", me, id);
   if (T[id].joined) return EINVAL;
   T[id].joined = 1;
-  return __real_pthread_join(th, ret);
+  int rc = __real_pthread_join(th, ret);
+  if (T[id].stack) { munmap(T[id].stack, TSTACK_SIZE); T[id].stack = NULL; }
+  return rc;
 }
 
 int __wrap_pthread_mutex_lock(pthread_mutex_t* m) {
